@@ -22,6 +22,9 @@ import (
 type StreamFault struct {
 	Stream int `json:"stream"` // n-th successfully established Watch stream of the run (1-based)
 	After  int `json:"after"`  // reset after this many delivered messages (the establishment ack counts as message 0)
+	// Clean: the stream does not break with Unavailable, it ENDS (the handler returned nil: a draining server or a
+	// proxy closing the stream gracefully); the client sees io.EOF
+	Clean bool `json:"clean,omitempty"`
 }
 
 // TransportFaults is the fault script of the simulated gRPC leg.
@@ -200,6 +203,7 @@ type simStream[T any, PT interface {
 	delivered int
 	resetAt   int // -1: never
 	broken    bool
+	cleanEnd  bool // the reset is a clean end of stream (io.EOF)
 }
 
 // ---- server side (grpc.ServerStreamingServer[T])
@@ -233,13 +237,20 @@ type simClientStream[T any, PT interface {
 func (c simClientStream[T, PT]) Recv() (PT, error) {
 	s := c.s
 	if s.broken {
+		if s.cleanEnd {
+			return nil, io.EOF
+		}
 		return nil, status.Error(codes.Unavailable, "injected: stream is broken")
 	}
 	if s.resetAt >= 0 && s.delivered >= s.resetAt {
 		s.broken = true
 		s.cancel()
-		s.t.out.fault("stream-reset")
 		simrt.Yield("stream.reset:" + s.name)
+		if s.cleanEnd {
+			s.t.out.fault("stream-ended-cleanly")
+			return nil, io.EOF
+		}
+		s.t.out.fault("stream-reset")
 		return nil, status.Error(codes.Unavailable, "injected: stream reset by transport")
 	}
 	deliver := func(b []byte) (PT, error) {
@@ -289,7 +300,7 @@ func startStream[Req any, PReq interface {
 }, T any, PT interface {
 	*T
 	vtMsg
-}](t *simTransport, ctx context.Context, name string, req PReq, resetAt int, h func(PReq, *simStream[T, PT]) error) (simClientStream[T, PT], error) {
+}](t *simTransport, ctx context.Context, name string, req PReq, resetAt int, cleanEnd bool, h func(PReq, *simStream[T, PT]) error) (simClientStream[T, PT], error) {
 	t.Calls[name]++
 	simrt.Yield("rpc:" + name)
 	if ctx.Err() != nil {
@@ -301,7 +312,7 @@ func startStream[Req any, PReq interface {
 	}
 	sctx, cancel := context.WithCancel(ctx)
 	buf := t.faults.StreamBuf
-	s := &simStream[T, PT]{t: t, name: name, ctx: sctx, clientCtx: ctx, cancel: cancel, ch: make(chan []byte, buf), done: make(chan struct{}), resetAt: resetAt}
+	s := &simStream[T, PT]{t: t, name: name, ctx: sctx, clientCtx: ctx, cancel: cancel, ch: make(chan []byte, buf), done: make(chan struct{}), resetAt: resetAt, cleanEnd: cleanEnd}
 	simrt.Go("rpc-handler:"+name, func() {
 		defer cancel()
 		var herr error
@@ -321,7 +332,7 @@ func startStream[Req any, PReq interface {
 
 // List implements v1alpha1.StateClient.
 func (t *simTransport) List(ctx context.Context, in *v1alpha1.ListRequest, _ ...grpc.CallOption) (grpc.ServerStreamingClient[v1alpha1.ListResponse], error) {
-	return startStream(t, ctx, "List", in, -1, func(r *v1alpha1.ListRequest, s *simStream[v1alpha1.ListResponse, *v1alpha1.ListResponse]) error {
+	return startStream(t, ctx, "List", in, -1, false, func(r *v1alpha1.ListRequest, s *simStream[v1alpha1.ListResponse, *v1alpha1.ListResponse]) error {
 		return t.srv.List(r, s)
 	})
 }
@@ -340,6 +351,7 @@ func (t *simTransport) Watch(ctx context.Context, in *v1alpha1.WatchRequest, _ .
 		return nil, status.Error(codes.Unavailable, "injected: cannot connect")
 	}
 	resetAt := -1
+	cleanEnd := false
 	if f == "first-recv" {
 		t.out.fault("watch-first-recv-failed")
 		resetAt = 0
@@ -348,10 +360,11 @@ func (t *simTransport) Watch(ctx context.Context, in *v1alpha1.WatchRequest, _ .
 		for _, r := range t.faults.Resets {
 			if r.Stream == t.streamN {
 				resetAt = r.After + 1 // the ack is message 0
+				cleanEnd = r.Clean
 			}
 		}
 	}
-	return startStream(t, ctx, "Watch", in, resetAt, func(r *v1alpha1.WatchRequest, s *simStream[v1alpha1.WatchResponse, *v1alpha1.WatchResponse]) error {
+	return startStream(t, ctx, "Watch", in, resetAt, cleanEnd, func(r *v1alpha1.WatchRequest, s *simStream[v1alpha1.WatchResponse, *v1alpha1.WatchResponse]) error {
 		return t.srv.Watch(r, s)
 	})
 }
